@@ -81,10 +81,14 @@ Lemma zone_parse z : zone_ok z ->
         | Some (oh, _, r9) =>
           match num_field none_t true 2 2 0 59 r9 with
           | None => None
-          | Some (om, _, _) => let secs := (om + oh * 60) * 60 in Some (if term_is (TChar (zone_head z)) 43%N then - secs else secs)
+          | Some (om, tm, _) =>
+            match tm with
+            | TEof => let secs := (om + oh * 60) * 60 in Some (if term_is (TChar (zone_head z)) 43%N then - secs else secs)
+            | _ => None
+            end
           end
         end
-   else Some 0) = Some (zone_seconds z).
+   else match zone_tail z with [] => Some 0 | _ => None end) = Some (zone_seconds z).
 Proof.
   destruct terms_ok as [_ [_ [T3 _]]].
   destruct z as [zl|minus oh om]; cbn [zone_ok zone_head zone_tail zone_seconds]; intros H.
@@ -94,13 +98,15 @@ Proof.
 Qed.
 
 Theorem parse_render_full y mo d h mi sec tl fs z :
-  0 <= y <= 9999 -> 1 <= mo <= 12 -> 1 <= d <= 31 -> 0 <= h <= 23 -> 0 <= mi <= 59 -> 0 <= sec <= 60 ->
+  0 <= y <= 9999 -> 1 <= mo <= 12 -> 1 <= d <= days_in_month y mo -> 0 <= h <= 23 -> 0 <= mi <= 59 -> 0 <= sec <= 60 ->
   (tl = 84%N \/ tl = 116%N) -> Forall (fun x => 0 <= x <= 9) fs -> zlen fs <= 9 -> zone_ok z ->
   parse_rfc3339 (render_full y mo d h mi sec tl fs z) = Some (instant y mo d h mi sec fs z).
 Proof.
   intros Hy Hmo Hd Hh Hmi Hs Htl Hfs Hlen Hz. destruct terms_ok as [T1 [T2 [T3 [T4 [T5 T6]]]]].
+  pose proof (dim_le_31 y mo) as H31.
+  assert (Hdim : (days_in_month y mo <? d) = false) by (apply Z.ltb_ge; lia).
   destruct (zone_head_facts z Hz) as [Z1 [Z2 [Z3 Z4]]].
-  unfold parse_rfc3339, render_full.
+  unfold parse_rfc3339, parse_frac, parse_zone, render_full.
   rewrite (num_field4 hyphen_t y 45%N) by (auto; lia).
   rewrite (num_field2 hyphen_t mo 45%N) by (auto; lia).
   rewrite (num_field2 t_t d tl) by (auto; try lia; destruct Htl; subst; reflexivity).
@@ -110,7 +116,7 @@ Proof.
   destruct fs as [|f0 fs'].
   - (* no fraction *)
     cbn [render_frac app]. rewrite (num_field2 end_sec_t sec (zone_head z)) by (auto; lia).
-    rewrite Z4. cbv beta iota zeta. pose proof (zone_parse z Hz) as HZ. cbv zeta in HZ. rewrite HZ. unfold instant, frac_nanos, frac_val. cbn [fold_left]. f_equal; try lia.
+    rewrite Z4. cbv beta iota zeta. pose proof (zone_parse z Hz) as HZ. cbv zeta in HZ. rewrite HZ. rewrite Hdim. unfold instant, frac_nanos, frac_val. cbn [fold_left]. f_equal; try lia.
   - (* '.' digits *)
     cbn [render_frac]. change ((46%N :: map digit (f0 :: fs')) ++ zone_head z :: zone_tail z)
       with (46%N :: (map digit (f0 :: fs') ++ zone_head z :: zone_tail z)).
@@ -122,13 +128,13 @@ Proof.
     assert (Hb : (0 + 1) * 10 ^ zlen (f0 :: fs') <= two63).
     { rewrite Z.mul_1_l. apply Z.le_trans with (10 ^ 9); [apply Z.pow_le_mono_r; [lia|exact Hlen]|unfold two63; vm_compute; discriminate]. }
     rewrite (digits_val_map (f0 :: fs') 0 Hfs ltac:(lia) Hb).
-    cbv beta iota zeta. pose proof (zone_parse z Hz) as HZ. cbv zeta in HZ. rewrite HZ. unfold instant, frac_nanos, frac_val. reflexivity.
+    cbv beta iota zeta. pose proof (zone_parse z Hz) as HZ. cbv zeta in HZ. rewrite HZ. rewrite Hdim. unfold instant, frac_nanos, frac_val. reflexivity.
 Qed.
 
 (* consequences the property names: the offset only shifts the instant, so the same instant written with different
    offsets parses equal; fractions order within a second *)
 Corollary offset_shifts_instant y mo d h mi sec tl fs minus oh om :
-  0 <= y <= 9999 -> 1 <= mo <= 12 -> 1 <= d <= 31 -> 0 <= h <= 23 -> 0 <= mi <= 59 -> 0 <= sec <= 60 ->
+  0 <= y <= 9999 -> 1 <= mo <= 12 -> 1 <= d <= days_in_month y mo -> 0 <= h <= 23 -> 0 <= mi <= 59 -> 0 <= sec <= 60 ->
   (tl = 84%N \/ tl = 116%N) -> Forall (fun x => 0 <= x <= 9) fs -> zlen fs <= 9 -> 0 <= oh <= 99 -> 0 <= om <= 59 ->
   exists t0, parse_rfc3339 (render_full y mo d h mi sec tl fs (ZU 90%N)) = Some t0 /\
              parse_rfc3339 (render_full y mo d h mi sec tl fs (ZOff minus oh om)) =
